@@ -60,6 +60,8 @@ type Engine struct {
 	Run  func(ch *Choices, cfg *RunCfg) *Outcome
 	// Race: the engine needs the -race build and a synctest bubble per run.
 	Bubble bool
+	// GCPerRun: collect before every run (engines whose verdict can depend on address reuse).
+	GCPerRun bool
 }
 
 var engines = map[string]*Engine{}
